@@ -356,6 +356,12 @@ sqf::runtime::runtime::result sqf::runtime::runtime::execute(sqf::runtime::runti
                 for (size_t i = 0; i < m_contexts.size(); i++)
                 {
                     m_context_active = m_contexts[i];
+                    if (m_context_active->terminate())
+                    { // terminated scripts execute nothing anymore: drop what is left of them
+                        m_context_active->clear_frames();
+                        m_context_active->clear_values(true);
+                        m_context_active->unsuspend();
+                    }
                     if (m_context_active->suspended())
                     {
                         if (m_context_active->wakeup_timestamp() <= std::chrono::system_clock::now())
